@@ -63,7 +63,7 @@ func goEnv() []string {
 }
 
 // build compiles the replay test binary of package rel.
-func (nr *nativeRunner) build(rel string) (string, error) {
+func (nr *nativeRunner) build(rel string, ld *loaded) (string, error) {
 	if b, ok := nr.bins[rel]; ok {
 		return b, nil
 	}
@@ -75,7 +75,7 @@ func (nr *nativeRunner) build(rel string) (string, error) {
 		nr.tmp = d
 	}
 	r := nr.rep
-	p := r.ld.pkgs[pkgPathOf(rel)]
+	p := ld.pkgs[pkgPathOf(rel)]
 	// collect every harness function of this package (all properties): the
 	// overlay contains all files of the directory
 	var all []string
@@ -97,7 +97,7 @@ func (nr *nativeRunner) build(rel string) (string, error) {
 		fmt.Fprintf(&sb, "\t\t%q: %s,\n", n, n)
 	}
 	sb.WriteString("\t})\n}\n")
-	tag := strings.ReplaceAll(rel, "/", "_")
+	tag := strings.ReplaceAll(strings.ReplaceAll(rel, "/", "_"), "@", "-")
 	if tag == "." {
 		tag = "root"
 	}
@@ -106,8 +106,8 @@ func (nr *nativeRunner) build(rel string) (string, error) {
 		return "", err
 	}
 	ovFile := filepath.Join(nr.tmp, "overlay_"+tag+".json")
-	extra := map[string]string{filepath.Join(r.repo, rel, "zz_verif_replay_test.go"): testFile}
-	if err := writeOverlayJSON(ovFile, r.ld.realOf, extra); err != nil {
+	extra := map[string]string{filepath.Join(r.repo, realRel(rel), "zz_verif_replay_test.go"): testFile}
+	if err := writeOverlayJSON(ovFile, ld.realOf, extra); err != nil {
 		return "", err
 	}
 	bin := filepath.Join(nr.tmp, tag+".test")
@@ -125,11 +125,11 @@ func (nr *nativeRunner) build(rel string) (string, error) {
 	return bin, nil
 }
 
-func (nr *nativeRunner) run(rel string, cases []nativeCase) ([]nativeResult, error) {
+func (nr *nativeRunner) run(rel string, ld *loaded, cases []nativeCase) ([]nativeResult, error) {
 	if len(cases) == 0 {
 		return nil, nil
 	}
-	bin, err := nr.build(rel)
+	bin, err := nr.build(rel, ld)
 	if err != nil {
 		return nil, err
 	}
@@ -141,7 +141,7 @@ func (nr *nativeRunner) run(rel string, cases []nativeCase) ([]nativeResult, err
 		return nil, err
 	}
 	cmd := exec.Command(bin, "-test.run", "^TestVerifReplay$", "-test.timeout", "600s")
-	cmd.Dir = filepath.Join(nr.rep.repo, rel)
+	cmd.Dir = filepath.Join(nr.rep.repo, realRel(rel))
 	cmd.Env = append(goEnv(), "VERIF_REPLAY="+in, "VERIF_REPLAY_OUT="+outp)
 	out, runErr := cmd.CombinedOutput()
 	rb, err := os.ReadFile(outp)
@@ -256,7 +256,7 @@ func (r *report) finish(doReplay bool) int {
 			for _, v := range j.violations {
 				cases = append(cases, nativeCase{Harness: v.Harness, Tier: r.tierInt(), Draws: v.Draws})
 			}
-			res, err := nr.run(j.rel, cases)
+			res, err := nr.run(j.rel, j.ld, cases)
 			if err != nil {
 				internalErrs = append(internalErrs, err.Error())
 				continue
@@ -293,7 +293,7 @@ func (r *report) finish(doReplay bool) int {
 				cases = append(cases, nativeCase{Harness: j.name, Tier: r.tierInt(), Draws: s.Draws})
 				sel = append(sel, s)
 			}
-			res, err := nr.run(j.rel, cases)
+			res, err := nr.run(j.rel, j.ld, cases)
 			if err != nil {
 				internalErrs = append(internalErrs, err.Error())
 				continue
@@ -464,7 +464,7 @@ func (r *report) evidence(validated, valMismatch, unconfirmed int, unconfMsgs []
 		"engine_divergences":             unconfMsgs,
 		"known_findings_hit":             knownHit,
 		"internal_errors":                internalErrs,
-		"load_s":                         r.ld.loadTime.Seconds(),
+		"load_s":                         r.loadS,
 		"exhaustive":                     len(notCovered) == 0 && unconfirmed == 0,
 	}
 	assumptions := []string{
@@ -507,7 +507,7 @@ func cmdReplay(args []string) int {
 	r := &report{ID: rf.Property, verif: *verif, repo: *repo, ld: ld}
 	nr := &nativeRunner{rep: r}
 	defer nr.close()
-	res, err := nr.run(rf.Rel, []nativeCase{{Harness: rf.Harness, Tier: rf.Tier, Draws: rf.Draws}})
+	res, err := nr.run(rf.Rel, ld, []nativeCase{{Harness: rf.Harness, Tier: rf.Tier, Draws: rf.Draws}})
 	if err != nil {
 		fmt.Fprintln(os.Stderr, err)
 		return 2
